@@ -88,7 +88,7 @@ def setup(tier):
 
 def required(tier):
     return {
-        "mon": ["post:OPA._Ctau", "post:Decomposer.fit", "backend:svd"],
+        "mon": ["post:OPA._Ctau", "post:Decomposer.fit", "backend:svd", "deferred_fits_computed"],
         "cover": [f"kind:{k}" for k in KINDS]
         + [f"solver:{s}" for s in SOLVERS]
         + ["tau_max:1", "tau_max:n/3", "npca:2", "npca:rank", "nmodes:1", "nmodes:npca", "center:False", "standardize:True", "coslat:True", "weights:True", "spectrum:has_negative", "sample_dims:1", "sample_dims:2", "history:aged", "history:fresh"],
@@ -255,6 +255,12 @@ def run_case(case, obs):
     sdims = tuple(b["sdims"])
     dim = sdims if len(sdims) > 1 else sdims[0]
     obs.cell(f"sample_dims:{len(sdims)}")
+    # deferred histories: fit(compute=False) ... compute() on in-memory data, and (exact solver only) on dask-backed
+    # data chunked along time -- the answers must be those of the ordinary fit
+    deferred = "numpy" if case["dseed"] % 5 == 1 else ("dask" if (case["dseed"] % 5 == 2 and case["solver"] == "full" and len(b["sdims"]) == 1) else None)
+    dkw = {"compute": False, "check_nans": False} if deferred else {}
+    obs.cell("deferred:" + str(deferred))
+    obs.tag(deferred=str(deferred))
     model = xe.single.OPA(
         n_modes=m,
         tau_max=tau_max,
@@ -264,8 +270,9 @@ def run_case(case, obs):
         use_coslat=case["coslat"],
         solver=case["solver"],
         random_state=case["random_state"],
+        **dkw,
     )
-    aged = case["dseed"] % 3 == 0
+    aged = case["dseed"] % 3 == 0 and not deferred
     obs.cell("history:" + ("aged" if aged else "fresh"))
     obs.tag(history="aged" if aged else "fresh")
     with warnings.catch_warnings():
@@ -282,7 +289,18 @@ def run_case(case, obs):
                 model = xe.single.OPA(n_modes=m, tau_max=tau_max, n_pca_modes=q, center=case["center"], standardize=case["standardize"],
                                       use_coslat=case["coslat"], solver=case["solver"], random_state=case["random_state"])
         mon.reset()
-        model.fit(b["X"], dim=dim, weights=b["W"])
+        if deferred == "dask":
+            try:
+                model.fit(b["X"].chunk({b["sdims"][0]: max(2, b["X"].sizes[b["sdims"][0]] // 2)}), dim=dim, weights=b["W"])
+            except NotImplementedError as e:
+                if "chunked in one dimension" in str(e) or "tall-and-skinny" in str(e):
+                    obs.refuse("dask's own svd refuses this chunk layout")
+                raise
+        else:
+            model.fit(b["X"], dim=dim, weights=b["W"])
+        if deferred:
+            model.compute()
+            obs.count("deferred_fits_computed")
     # hook failures are classified below, once the oracle knows the spectrum
     events = mon.drain(obs)
     dec = [e for e in events if e.get("kind") == "backend" and e.get("where") == "Decomposer"]
